@@ -662,6 +662,11 @@ func quantAtomStage(qf, quants, qinst []*Term, negGround *Term, ground []*Term) 
 				done[q] = true
 				axioms = append(axioms, Implies(atoms[q], q))
 			}
+			if q.Op == "exists" && !done[q] {
+				// (exists x. B) ==> p_Q, i.e. forall x. (B ==> p_Q): introduction at ground terms
+				done[q] = true
+				axioms = append(axioms, Forall(q.Bnd, Implies(q.Args[0], atoms[q])))
+			}
 		}
 		if len(axioms) == 0 {
 			break
@@ -675,6 +680,18 @@ func quantAtomStage(qf, quants, qinst []*Term, negGround *Term, ground []*Term) 
 		out = append(out, insts...)
 		for _, h := range nested {
 			out = append(out, atomize(h))
+		}
+	}
+	// an existential and the universal that is its negation (the same formula met in both
+	// polarities, e.g. as a hypothesis and in the negated goal) cannot both hold
+	for _, f := range order {
+		if f.Op != "forall" || f.Args[0].Op != "not" {
+			continue
+		}
+		for _, e := range order {
+			if e.Op == "exists" && e.Args[0] == f.Args[0].Args[0] && fmt.Sprint(varIDs(e.Bnd)) == fmt.Sprint(varIDs(f.Bnd)) {
+				out = append(out, Not(And(atoms[e], atoms[f])))
+			}
 		}
 	}
 	// a Boolean-sorted leftover quantifier (under a non-Boolean context) would make the script
